@@ -231,6 +231,9 @@ class SimPool:
                     "start": start,
                     "fp": bitgen_fingerprint(rng.bit_generator) if rng is not None else None,
                     "len": len(t),
+                    # a task must never carry the sampler's own (parent) generator: a by-value pool would draw
+                    # from a copy and the parent would not advance
+                    "is_parent": bool(rng is not None and id(rng.bit_generator) in getattr(self, "parent_bitgens", ())),
                 }
             )
         call = {"key": key, "op": self.op_id, "map": midx, "func": fname, "n_tasks": n, "tasks": decoded, "decision": decision, "executed": []}
